@@ -11,7 +11,7 @@ import time
 VERIF = os.path.dirname(os.path.dirname(os.path.abspath(__file__)))
 SEEDED = os.path.join(VERIF, "seeded")
 # under `vp run --with-repo` the patches go to the snapshot of /repo and the harness is built against it
-REPO = os.environ.get("VP_RUN_REPO", REPO)
+REPO = os.environ.get("VP_RUN_REPO", "/repo")
 
 
 def main():
